@@ -103,6 +103,18 @@ func cookieWires(rng *rand.Rand) [][]byte {
 	out = append(out, append(append([]byte(nil), hdr...), 53, 1, 5, 255, 99, 130, 83, 99))
 	out = append(out, append(append([]byte(nil), hdr...), 99, 2, 83, 99, 255))
 	out = append(out, append(append([]byte(nil), hdr...), 99, 0, 130, 0, 83, 0, 99, 0, 255))
+	// what a BOOTP server of before RFC 1497 sends: the 236-octet header and a vendor area of zeroes - no cookie, at the BOOTP
+	// minimum of 300 octets and at other sizes, as request and as reply, with and without an address in yiaddr
+	for _, op := range []byte{1, 2} {
+		for _, n := range []int{236, 240, 299, 300, 301, 364, 548} {
+			w := append([]byte(nil), hdr[:236]...)
+			w[0] = op
+			if n%2 == 0 {
+				copy(w[16:20], []byte{192, 0, 2, 9})
+			}
+			out = append(out, append(w, make([]byte, n-236)...))
+		}
+	}
 	return out
 }
 
@@ -354,6 +366,21 @@ func genC07(o *Out, rng *rand.Rand, tier string) {
 	}
 	var special []*dhcpv4.DHCPv4
 	hwAndIdentifier(rng, func(p *dhcpv4.DHCPv4) { special = append(special, p) })
+	// callers that terminate or pad the option list themselves (code ported from APIs where that was the caller's job): the
+	// markers are not options; the encoding has its one End option all the same
+	for k := 0; k < 12; k++ {
+		p := randPacket4(rng, 1+rng.Intn(4), []int{0, 1, 4, 8})
+		if p.Options == nil {
+			p.Options = dhcpv4.Options{}
+		}
+		if k%3 != 1 {
+			p.UpdateOption(dhcpv4.OptGeneric(dhcpv4.OptionEnd, nil))
+		}
+		if k%3 != 0 {
+			p.UpdateOption(dhcpv4.OptGeneric(dhcpv4.OptionPad, []byte{}))
+		}
+		special = append(special, p)
+	}
 	for i := 0; i < n+len(special); i++ {
 		var p *dhcpv4.DHCPv4
 		if i < len(special) {
